@@ -114,18 +114,16 @@ func readGtab(r parser.ReadSeekSizer, tp Type, sr subtableReader) (*Info, error)
 		endOfHeader += 4
 	}
 
-	if header.ScriptListOffset == 0 || header.LookupListOffset == 0 {
-		return &Info{
-			ScriptList: make(ScriptListInfo),
-		}, nil
-	}
-
+	// An offset of zero indicates that the corresponding list is absent.
 	fileSize := p.Size()
 	for _, offset := range []uint32{
 		uint32(header.ScriptListOffset),
 		uint32(header.FeatureListOffset),
 		uint32(header.LookupListOffset),
 	} {
+		if offset == 0 {
+			continue
+		}
 		if offset < endOfHeader || int64(offset) >= fileSize {
 			return nil, &parser.InvalidFontError{
 				SubSystem: "sfnt/opentype/gtab",
@@ -142,18 +140,26 @@ func readGtab(r parser.ReadSeekSizer, tp Type, sr subtableReader) (*Info, error)
 		}
 	}
 
-	info := &Info{}
-	info.ScriptList, err = readScriptList(p, int64(header.ScriptListOffset))
-	if err != nil {
-		return nil, err
+	info := &Info{
+		ScriptList: make(ScriptListInfo),
 	}
-	info.FeatureList, err = readFeatureList(p, int64(header.FeatureListOffset))
-	if err != nil {
-		return nil, err
+	if header.ScriptListOffset != 0 {
+		info.ScriptList, err = readScriptList(p, int64(header.ScriptListOffset))
+		if err != nil {
+			return nil, err
+		}
 	}
-	info.LookupList, err = readLookupList(p, int64(header.LookupListOffset), sr)
-	if err != nil {
-		return nil, err
+	if header.FeatureListOffset != 0 {
+		info.FeatureList, err = readFeatureList(p, int64(header.FeatureListOffset))
+		if err != nil {
+			return nil, err
+		}
+	}
+	if header.LookupListOffset != 0 {
+		info.LookupList, err = readLookupList(p, int64(header.LookupListOffset), sr)
+		if err != nil {
+			return nil, err
+		}
 	}
 
 	_ = FeatureVariationsOffset // TODO(voss): implement this
